@@ -26,6 +26,21 @@ func FamilyName(thorough bool) []*Conv {
 			})
 		}
 	}
+	// ... with types of that package spelled inside loop bodies (where index / key / value variables are in scope)
+	deep := "type PFXNin struct{ V int }\ntype PFXNout struct{ V int }\ntype PFXIn struct {\n\tLL [][]PFXNin\n\tML map[string][]PFXNin\n\tMM map[string]map[string]PFXNin\n}\ntype PFXOut struct {\n\tLL [][]PFXNout\n\tML map[string][]PFXNout\n\tMM map[string]map[string]PFXNout\n}\n"
+	for i, n := range []string{"i", "j", "key", "value", "key2", "value2", "err", "context", "target", "xint", "plain"} {
+		f := []string{"struct", "function"}[i%2]
+		out = append(out, &Conv{
+			ID:      fmt.Sprintf("name/pkgdeep_%s/%s", n, f),
+			Family:  "name",
+			Format:  f,
+			Params:  "source PFXIn",
+			Results: "(PFXOut, error)",
+			Decls:   deep,
+			PkgName: n,
+			Spec:    &Spec{},
+		})
+	}
 	// type names that collide with generated helper names / locals
 	for _, f := range []string{"struct", "function", "variable"} {
 		out = append(out, &Conv{
